@@ -5,7 +5,7 @@ from vlib.coqlit import *
 
 ID = "C20"
 COQ_PROPS = "Props/C20.v"
-THEOREMS = ["C20_tm_same"]
+THEOREMS = ["C20_tm_same", "C20_tm_h", "C20_tm_hm", "C20_tm_hms"]
 ALLOWED_AXIOMS = []
 TRUSTED_BASE = ["Common/F64.v `fl` as the model of IEEE binary64 round-to-nearest-even (Python float(), int+float)",
                 "Common/PyNum.v py_int / py_float as models of Python int() / float() on strings without non-ASCII digits"]
